@@ -289,6 +289,17 @@ Section B.
   Qed.
 End B.
 
+Lemma every_caller_draws coin_lt w now :
+  (forall n2 d, 0 < n2 -> coin_lt 0 n2 d = true) ->
+  0 < excess2 (fst (history w now)) (snd (history w now)) ->
+  forall k id, (snd (bstep coin_lt (w, now) (Allow id 0)), snd (bstep coin_lt (w, now) (Begin id k 0))) =
+               (OAllowRejected, ORejected (if has_fallback k then RFallback else RUnavailable)).
+Proof.
+  intros Hc Hx k id. cbn [bstep fst snd]. unfold do_begin, accept.
+  destruct (history w now) as [a t]. cbn [fst snd] in Hx.
+  destruct (Z.leb_spec (excess2 a t) 0); [lia|]. rewrite Hc by assumption. reflexivity.
+Qed.
+
 (* ---------- arithmetic of the ratio ---------- *)
 Lemma failing_ratio t : ratio_den t - ratio_num 0 t = 12.
 Proof. unfold ratio_den, ratio_num. lia. Qed.
